@@ -1399,31 +1399,50 @@ def _repeated_tests(stmts, func):
         def visit_Lambda(self, n):
             return n
 
-    def fold_in(branch, text, truth, names):
+    def effects(node):
+        # anything that can run other code (and so change an attribute): a call, a yield, an attribute / item store
+        for x in ast.walk(node):
+            if isinstance(x, (ast.Call, ast.Yield, ast.YieldFrom, ast.Await)):
+                return True
+            if isinstance(x, (ast.Attribute, ast.Subscript)) and isinstance(x.ctx, (ast.Store, ast.Del)):
+                return True
+        return False
+
+    def fold_in(branch, text, truth, names, attr_atom=False):
         if any(n in _stores(branch) for n in names):
             return branch
         out = []
-        for st in branch:
+        for k, st in enumerate(branch):
             if isinstance(st, _DEF):
                 out.append(st)
                 continue
-            if isinstance(st, (ast.Assign, ast.Expr, ast.Return, ast.AugAssign)):
+            if isinstance(st, (ast.Assign, ast.Expr, ast.Return, ast.AugAssign)) and not (attr_atom and effects(st)):
                 st = FoldIfExp(text, truth).visit(st)
             if isinstance(st, ast.If):
                 e, neg = _atom(st.test)
                 if _simple(e) and ast.unparse(e) == text:
                     val = truth != neg
-                    taken = fold_in(st.body if val else st.orelse, text, truth, names)
+                    taken = fold_in(st.body if val else st.orelse, text, truth, names, attr_atom)
                     out.extend(taken)
                     changed[0] = True
                     continue
+            header = [getattr(st, 'test', None), getattr(st, 'iter', None)] + [
+                i_.context_expr for i_ in getattr(st, 'items', []) or []]
+            if attr_atom and any(h_ is not None and effects(h_) for h_ in header):
+                # what the test said about the attribute holds only until other code runs
+                out.append(st)
+                out.extend(branch[k + 1:])
+                return out
             for field in ('body', 'orelse', 'finalbody'):
                 sub = getattr(st, field, None)
                 if isinstance(sub, list) and sub and isinstance(sub[0], ast.stmt):
-                    setattr(st, field, fold_in(sub, text, truth, names) or [ast.copy_location(ast.Pass(), st)])
+                    setattr(st, field, fold_in(sub, text, truth, names, attr_atom) or [ast.copy_location(ast.Pass(), st)])
             for h in getattr(st, 'handlers', []) or []:
-                h.body = fold_in(h.body, text, truth, names) or [ast.copy_location(ast.Pass(), h)]
+                h.body = fold_in(h.body, text, truth, names, attr_atom) or [ast.copy_location(ast.Pass(), h)]
             out.append(st)
+            if attr_atom and effects(st):
+                out.extend(branch[k + 1:])
+                return out
         return out
     for s in stmts:
         if isinstance(s, ast.If):
@@ -1431,8 +1450,9 @@ def _repeated_tests(stmts, func):
             if _simple(e) and not isinstance(e, ast.Constant):
                 names = set(x.id for x in ast.walk(e) if isinstance(x, ast.Name))
                 text = ast.unparse(e)
-                s.body = fold_in(s.body, text, not neg, names) or [ast.copy_location(ast.Pass(), s)]
-                s.orelse = fold_in(s.orelse, text, neg, names)
+                aa = not isinstance(e, ast.Name)
+                s.body = fold_in(s.body, text, not neg, names, aa) or [ast.copy_location(ast.Pass(), s)]
+                s.orelse = fold_in(s.orelse, text, neg, names, aa)
     return stmts if changed[0] else None
 
 
